@@ -716,6 +716,7 @@ func props() []rp.Prop {
 	return []rp.Prop{
 		rp.P[history]{Name: "listener", Checks: ev.Pick(400, 60000) / ev.Shards(), Gen: genHistory, Check: check},
 		rp.P[slowCase]{Name: "slow-consumer", Sweep: slowSweep, Check: checkSlow},
+		rp.P[overlapCase]{Name: "running-listener", Sweep: sweepOverlap, Check: checkOverlap},
 	}
 }
 
